@@ -182,7 +182,8 @@ func runC05(c *sim.Ctx, t *testing.T) {
 			if to := w.To(); to != nil {
 				final = to
 			}
-			if stateCanon(final) != stateCanon(st) {
+			// error text is not part of the comparison (it can name either of two offending keys)
+			if final.NodeName+"/"+canonBs(map[string]interface{}(final.Bs)) != st.NodeName+"/"+canonBs(map[string]interface{}(st.Bs)) {
 				fail("split-state", "delivering the history in batches ends at %s, all at once at %s", stateCanon(st), stateCanon(final))
 				return
 			}
